@@ -590,12 +590,7 @@ Proof.
       as [[ps w]|] eqn:Fd.
     + destruct (String.eqb w bexit) eqn:W.
       * apply IH; cbn [fst snd]; assumption.
-      * exfalso. apply find_some in Fd as [Hin Hm]. cbn [fst] in Hm.
-        unfold cisco_special_row in Hx.
-        assert (existsb (fun e : list string * string =>
-                  negb (String.eqb (snd e) bexit) && existsb (fun p => startswith p (strip x)) (fst e)) tbl = true).
-        { apply existsb_exists. exists (ps, w). split; [exact Hin|]. cbn [fst snd]. rewrite W, Hm. reflexivity. }
-        congruence.
+      * exfalso. unfold cisco_special_row, cisco_exit_of in Hx. rewrite Fd, W in Hx. discriminate.
     + apply IH; cbn [fst snd]; assumption.
 Qed.
 
@@ -1029,20 +1024,23 @@ Qed.
 
 Definition proved_family (fm : fam) : Prop := match fm with FRos _ => False | _ => True end.
 
+(* the guard without the Cisco closed-block alternative (Proofs/CiscoProofs.v) *)
+Definition simple_guard (fm : fam) (f : forest) : bool :=
+  match fm with FPlain sk => all_rows (plain_guard_row sk) f | _ => true end.
+
 Lemma roundtrip_intro f text fm ind :
   join_f fm ind f = Some text -> parse_f fm ind text = Some (Ok f) ->
   run_family fm ind f = ORound text (Ok f) (Some text).
 Proof. intros J P. unfold run_family. rewrite J, P, J. reflexivity. Qed.
 
 Theorem family_roundtrip fm ind f :
-  proved_family fm -> wf_C04_family fm ind f = true -> guard_C04_family fm f = true ->
+  proved_family fm -> wf_C04_family fm ind f = true -> simple_guard fm f = true ->
   exists text, run_family fm ind f = ORound text (Ok f) (Some text).
 Proof.
   intros Pf W G. unfold wf_C04_family in W. apply andb_true_iff in W as [W Wf]. apply andb_true_iff in W as [Wi Wt].
   apply wfb_wf in Wt. destruct fm as [sk|b p w|bb]; [| |contradiction].
   - apply andb_true_iff in Wf as [Wr Ws]. exists (join_plain ind f). apply roundtrip_intro; [reflexivity|].
     apply parse_plain; try assumption.
-    cbn [guard_C04_family] in G. destruct sk; try (eapply all_rows_impl; [|exact Wr]; reflexivity). exact G.
   - apply andb_true_iff in Wf as [Wf Ww]. apply andb_true_iff in Wf as [Wb Wr].
     destruct (brace_ok_inv b p Wb) as [Sb ->].
     destruct (split_brace_lines b w ind f Sb Wi Wr) as (text & J & S).
@@ -1055,19 +1053,6 @@ Qed.
 
 Lemma roundtrip_of_outcome f text : roundtrip f (ORound text (Ok f) (Some text)) = true.
 Proof. cbn. rewrite forest_eqb_refl, String.eqb_refl. reflexivity. Qed.
-
-(* the vendor-level statement: for every vendor whose family in the regenerated table is the property's *)
-Theorem vendor_roundtrip name ind f v fm :
-  find_vendor name = Some v -> family v = Some fm -> spec_family name = Some fm -> proved_family fm ->
-  wf_C04 (name, ind, f) = true -> guard_C04 (name, ind, f) = true ->
-  P_C04 (name, ind, f) (run_vendor name ind f) = true /\
-  exists text, run_vendor name ind f = ORound text (Ok f) (Some text).
-Proof.
-  intros Fv Ff Fs Pf W G. unfold wf_C04, guard_C04, P_C04, with_family, run_vendor in *. rewrite Fv, ?Ff, Fs in *.
-  destruct (family_roundtrip fm (eff_indent v ind) f Pf W G) as (text & E). rewrite E, W. split.
-  - apply roundtrip_of_outcome.
-  - eauto.
-Qed.
 
 Lemma find_vendor_In name v : find_vendor name = Some v -> In v vendors /\ v_name v = name.
 Proof.
